@@ -11,7 +11,8 @@
    offset the number of bytes read.  [valid_pos data p] = exists rest, at_pos data rest p.
    [at_text data p txt]: p is such a position and the input continues there with txt. *)
 From Verif.Base Require Import Bytes.
-From Verif.Modfile Require Import Syntax Lex Parse ProofsLex ProofsParse.
+From Verif.Module Require Import Path.
+From Verif.Modfile Require Import Syntax Lex Parse Directives ModulePath ProofsLex ProofsParse ProofsDirectives.
 
 (* the model never runs out of its recursion budget *)
 Theorem C20_parse_fuel_enough : forall data, parse data <> POutOfFuel.
@@ -83,3 +84,67 @@ require ( // s
 )
 ") = POk s /\ length (f_stmt s) = 1%nat.
 Proof. eexists. split; [vm_compute; reflexivity|reflexivity]. Qed.
+
+(* ---------------------------------------------------------------- directive layer
+
+   [parse_to_file strict fix data] models modfile.Parse (strict = true) and ParseLax
+   (strict = false), [parse_work fix data] models ParseWork; [fix = None] is Go's fix == nil.
+   [core f] = (module path + deprecation, go version, requires, retracts) of a File. *)
+
+(* The strict parser's successes are successes of the lax parser, with the same core.
+   Proved for fix = nil.  Full statement (any fixer), NOT proved — fixRetract re-reads the
+   rewritten tokens of the retract lines, the proof needs the additional invariant that the
+   strict and the lax run rebuild every retract statement identically:
+
+     Theorem C20_strict_implies_lax_same_core : forall fix data f,
+       parse_to_file true fix data = DOk f ->
+       exists f', parse_to_file false fix data = DOk f' /\ core f = core f'.
+
+   The Go oracle "strict-implies-lax-same-core" evaluates it with fix = nil and with the
+   canonicalising fixer on every generated file. *)
+Theorem C20_strict_implies_lax_same_core_partial : forall data f,
+  parse_to_file true None data = DOk f ->
+  exists f', parse_to_file false None data = DOk f' /\ core f = core f'.
+Proof. exact strict_implies_lax_same_core_nofix_data. Qed.
+Print Assumptions C20_strict_implies_lax_same_core_partial.
+
+Example C20_strict_lax_example :
+  exists f, parse_to_file true None (B "module example.com/m
+go 1.21
+require example.com/a v1.2.3 // indirect
+retract [v1.0.0, v1.1.0] // broken
+") = DOk f /\ length (fd_require f) = 1%nat /\ length (fd_retract f) = 1%nat.
+Proof. eexists. split; [vm_compute; reflexivity|split; reflexivity]. Qed.
+
+(* the directive layer never reports an internal error either (ParseWork: any fixer;
+   Parse/ParseLax: proved for fix = nil, the fixRetract loop with a fixer is not covered) *)
+Theorem C20_parse_work_no_internal_error : forall fx data,
+  parse_work fx data <> DPanic /\ parse_work fx data <> DFuel.
+Proof. exact parse_work_no_panic. Qed.
+Print Assumptions C20_parse_work_no_internal_error.
+
+Theorem C20_parse_to_file_no_internal_error_partial : forall strict data,
+  parse_to_file strict None data <> DPanic /\ parse_to_file strict None data <> DFuel.
+Proof. exact parse_to_file_no_panic_nofix. Qed.
+Print Assumptions C20_parse_to_file_no_internal_error_partial.
+
+(* lax_ignores_unknown and modulepath_agrees: stated, NOT proved in Coq; decided by the Go
+   oracles "lax-ignores-unknown" and "modulepath-agrees-with-strict" and by the
+   correspondence of ParseLax / ModulePath with the model.
+
+     lax_ignores_unknown : dropping from the tree every Line whose first token is not one
+       of go, module, retract, require and every LineBlock whose tokens are not exactly one
+       of module, retract, require leaves the values of parse_to_file false fix unchanged.
+
+     modulepath_agrees : parse_to_file true fix data = DOk f -> fd_module f = Some m ->
+       snd (md_syntax m) = None (single line) -> check_import_path (path m) = None ->
+       no earlier line's first token is "module" -> module_path data = path m.
+
+   Without the last hypothesis the statement is false (finding K1): *)
+Theorem C20_modulepath_agrees_refuted :
+  exists data f m,
+    parse_to_file true None data = DOk f /\ fd_module f = Some m /\
+    snd (md_syntax m) = None /\ check_import_path (mv_path (md_mod m)) = None /\
+    module_path data <> mv_path (md_mod m).
+Proof. exact modulepath_agrees_refuted. Qed.
+Print Assumptions C20_modulepath_agrees_refuted.
